@@ -182,10 +182,23 @@ def _e_objects(interp, args, kwargs, result):
 contract('monoidal.Ty.objects', params=_p_self, ensures=_e_objects, property_ids=PIDS)
 
 
+def _ty_list(ex, name):
+    """a list of types of symbolic length"""
+    n = z3.Int(name + '.len')
+    ex.assume(n >= 0)
+    f = z3.Function(name + '.at', T.IntS, T.TyS)
+    base = ex.register_base(BaseList(name, n, lambda i: VTy(f(i)), 'ty'))
+    return VList.of_base(base)
+
+
 def _p_tensor(ex):
     _pointwise(ex)
     s = ex.sym_ty('self')
-    k = ex.fork(4)
+    k = ex.fork(5)
+    if k == 4:
+        others = _ty_list(ex, 'others')          # any number of operands
+        ex._ty = (s, others)
+        return [s, VStar(others)], {}
     others = [ex.sym_ty('other%d' % j) for j in range(k)]
     ex._ty = (s, others)
     return [s] + others, {}
@@ -194,11 +207,17 @@ def _p_tensor(ex):
 def _e_tensor(interp, args, kwargs, result):
     ex = interp.ex
     s, others = ex._ty
+    if isinstance(others, VList):
+        # t.tensor(*types) == t ++ flatten(types), flatten by its recursion (semantics of the nested comprehension)
+        ex.prove('C01:Ty.tensor of any number of operands is self followed by their flattening, in order',
+                 isinstance(result, VTy) and T.ty_eq(result.t, T.ty_concat(s.t, ex.flat_of(others).t)))
+        return
     _same_type(interp, 'C01:Ty.tensor is the concatenation of the operands, in order', result,
                VTy(T.ty_concat(s.t, *[o.t for o in others])))
 
 
-contract('monoidal.Ty.tensor', params=_p_tensor, ensures=_e_tensor, property_ids=PIDS + ('C02',))
+contract('monoidal.Ty.tensor', params=_p_tensor, ensures=_e_tensor, property_ids=PIDS + ('C02',),
+         loops={0: LoopSpec(assume=lambda interp, env, k, seq, at_exit: None, check=lambda interp, env, k, label, seq: None)})
 
 
 def _p_matmul(ex):
